@@ -315,6 +315,8 @@ class Polyline:
             particular subsection of a path whose orientation through the region of interest
             is unknown.
         """
+        vg.shape.check(locals(), "p1", (3,))
+        vg.shape.check(locals(), "p2", (3,))
         if self.is_closed:
             return self.flipped_if(
                 self.sliced_at_points(p2, p1).total_length
@@ -447,6 +449,8 @@ class Polyline:
         With `ret_new_indices=True`, also returns the new indices of the
         original vertices and the new indices of the inserted points.
         """
+        segment_indices = np.asarray(segment_indices)
+        vg.shape.check(locals(), "segment_indices", (-1,))
         geometric_midpoints = np.mean(self.segments[segment_indices], axis=1)
         return self.with_insertions(
             points=geometric_midpoints,
